@@ -963,7 +963,7 @@ PROP = Property(
           "distinct = (platform, method, errno | slot, outcome)."),
     strategy=strategy,
     run_case=run_case,
-    budgets={"quick": 7000, "thorough": 1400000},
+    budgets={"quick": 7000, "thorough": 70000},
     assumptions=[
         "the native C / Obj-C sources of other platforms are not compiled or "
         "executed: the Python layers are driven over a stub native layer",
